@@ -15,13 +15,14 @@ import KrakenModel.Proof.C17
 namespace KrakenModel.Spec.C17
 open KrakenModel.SchedWaiters KrakenModel.Proof.C17
 
-/-- the scheduler is at rest: it has been stopped, or no download is in progress and no completion
-notice is in flight (every control is complete and its notice has been applied) -/
+/-- the scheduler is at rest: every request's event has been applied, and it has been stopped or no download
+is in progress and no completion notice is in flight (every control is complete and its notice applied) -/
 def quiescentB (s : State) : Bool :=
-  s.stopped || s.live.all fun h =>
+  (List.range s.nextW).all (fun w => (s.snap w).isNone) &&
+  (s.stopped || s.live.all fun h =>
     match s.ctrl h with
     | some c => c.complete && !(s.notices.contains (h, c.gen))
-    | none => true
+    | none => true)
 
 def Quiescent (s : State) : Prop := quiescentB s = true
 
@@ -29,6 +30,7 @@ instance (s : State) : Decidable (Quiescent s) := by unfold Quiescent; exact inf
 
 def isRequest : Action → Bool
   | .request _ => true
+  | .create _ => true
   | .requestMissing => true
   | _ => false
 
@@ -47,20 +49,27 @@ theorem requests_numbered (rep : Bool) (sched : List Action) :
       rw [ih (step rep s a), List.countP_cons]
       have : (step rep s a).nextW = s.nextW + (if isRequest a = true then 1 else 0) := by
         cases a <;> simp only [step, isRequest]
-        case request h =>
-          simp only [request]
+        case request h => simp [request, handleReq_nextW, setDl]
+        case create h => simp only [create]; split <;> simp [setDl]
+        case apply w =>
+          simp only [applyReq]; split
+          · simp
+          · rw [handleReq_nextW]; simp
+        case incoming h =>
+          simp only [incoming]
           split
           · simp
           · split
+            · simp [setDl]
             · split <;> simp [setCtrl]
-            · split <;> simp [setCtrl]
+        case evict h => simp only [evict]; split <;> simp [setCached]
         case requestMissing => simp [requestMissing]
         case finish h =>
           simp only [finish]
           split
           · split
             · simp
-            · split <;> simp [setCtrl, setCached]
+            · split <;> simp [setCtrl, setCached, setDl]
           · simp
         case notice h g =>
           simp only [notice]
@@ -74,19 +83,19 @@ theorem requests_numbered (rep : Bool) (sched : List Action) :
               · simp
           · simp
         case timeout h =>
-          simp only [timeout, removeTorrent]
+          simp only [timeout]
           split
           · simp
           · split
-            · split <;> split <;> simp [setCtrl, setCached]
+            · rw [removeTorrent_nextW]; simp
             · simp
         case rm h =>
-          simp only [rm, removeTorrent]
+          simp only [rm]
           split
           · simp
           · split
-            · split <;> split <;> simp [setCtrl, setCached]
-            · simp [setCached]
+            · simp [setCached, setDl, removeTorrent_nextW]
+            · simp [setCached, setDl]
         case shutdown =>
           simp only [shutdown]; split <;> simp
       omega
@@ -98,11 +107,13 @@ theorem at_most_once (sched : List Action) (w : Nat) : ((run true sched).results
   good_at_most_once _ (run_good sched) w
 
 /-- **C17 (2)** No request is ever lost: at every point of every schedule a request has its one result,
-or the scheduler is running and the request is still registered with a live torrent control (which
-every one of removal, timeout, completion notice and shutdown answers, see (5)). -/
+or it has none yet and either the scheduler is running and the request is registered with a live torrent
+control (which every one of removal, timeout, completion notice and shutdown answers, see (5)), or its
+`newTorrentEvent` has not been applied yet (applying it answers or registers it). -/
 theorem never_lost (sched : List Action) (w : Nat) (hw : w < (run true sched).nextW) :
     ((run true sched).results w).length = 1 ∨
-    ((run true sched).stopped = false ∧ (run true sched).results w = [] ∧ Tracked (run true sched) w) :=
+    ((run true sched).results w = [] ∧
+      (((run true sched).stopped = false ∧ Tracked (run true sched) w) ∨ ((run true sched).snap w).isSome = true)) :=
   good_never_lost _ (run_good sched) w hw
 
 /-- A complete torrent with registered requests always has its completion notice in flight: the
@@ -118,28 +129,141 @@ theorem exactly_once (sched : List Action) (q : Quiescent (run true sched)) :
     ∀ w, w < (run true sched).nextW → ((run true sched).results w).length = 1 := by
   intro w hw
   have g := run_good sched
-  rcases never_lost sched w hw with h1 | ⟨hs, _, h, c, hc, hwc⟩
+  simp only [Quiescent, quiescentB, Bool.and_eq_true, List.all_eq_true, List.mem_range] at q
+  rcases never_lost sched w hw with h1 | ⟨_, h2 | h2⟩
   · exact h1
-  · exfalso
-    simp only [Quiescent, quiescentB, hs, Bool.false_or, List.all_eq_true] at q
-    have := q h (g.live_mem h c hc)
+  · obtain ⟨hs, h, c, hc, hwc⟩ := h2
+    exfalso
+    have q2 := q.2
+    simp only [hs, Bool.false_or, List.all_eq_true] at q2
+    have := q2 h (g.live_mem h c hc)
     simp only [hc, Bool.and_eq_true, Bool.not_eq_true', List.contains_eq_mem, decide_eq_false_iff_not] at this
     have hne : c.waiters ≠ [] := fun e => by rw [e] at hwc; cases hwc
     exact this.2 (g.complete_notice hs h c hc this.1 hne)
+  · have := q.1 w hw
+    cases hx : (run true sched).snap w <;> simp_all
 
-/-- In particular after `Stop()` every request has exactly one result. -/
-theorem exactly_once_after_shutdown (sched : List Action) :
-    ∀ w, w < (run true (sched ++ [.shutdown])).nextW → ((run true (sched ++ [.shutdown])).results w).length = 1 := by
-  apply exactly_once
-  have : (run true (sched ++ [.shutdown])).stopped = true := by
+/-- In particular after `Stop()` every request whose event reached the loop has exactly one result (a request
+still on its way gets "stopped" from its failed send, which is `apply` after the stop). -/
+theorem exactly_once_after_shutdown (sched : List Action) (w : Nat)
+    (hw : w < (run true (sched ++ [.shutdown])).nextW) (hsn : (run true (sched ++ [.shutdown])).snap w = none) :
+    ((run true (sched ++ [.shutdown])).results w).length = 1 := by
+  have g := run_good (sched ++ [.shutdown])
+  have hst : (run true (sched ++ [.shutdown])).stopped = true := by
     simp only [run, runFrom, List.foldl_append, List.foldl_cons, List.foldl_nil, step, shutdown]
     split <;> simp_all
-  simp [Quiescent, quiescentB, this]
+  exact g.answered w hw (by simp) hsn (Or.inl hst)
 
-/-- **C17 (4)** A request is told "success" only when the blob is in the local cache at that moment. -/
-theorem success_implies_cached (sched : List Action) (w : Nat) (x : Sent)
+/-- **C17 (4)** In every schedule without cache eviction and without a split request (`pure`: the blob of a
+complete control is in the cache, and a request's torrent object is as fresh as the event), a request is told
+"success" only when the blob is in the local cache at that moment.  The two excluded situations are real and
+are stated (and refuted) below as `success_implies_cached_target`. -/
+theorem success_implies_cached (sched : List Action) (hp : (run true sched).pure = true) (w : Nat) (x : Sent)
     (hx : x ∈ (run true sched).results w) (hok : x.res = .ok) : x.cachedThen = true :=
-  (run_good sched).ok_cached w x hx hok
+  (run_good sched).ok_cached hp w x hx hok
+
+def noEvictNoSplit : Action → Bool
+  | .evict _ => false
+  | .create _ => false
+  | _ => true
+
+/-- `pure` is exactly "no eviction and no split request happened" -/
+theorem pure_of_plain (rep : Bool) (sched : List Action) (hs : sched.all noEvictNoSplit = true) :
+    (run rep sched).pure = true := by
+  have key : ∀ (sched : List Action) (s : State), s.pure = true → sched.all noEvictNoSplit = true →
+      (runFrom rep s sched).pure = true := by
+    intro sched
+    induction sched with
+    | nil => intro s h _; exact h
+    | cons a as ih =>
+      intro s h hall
+      simp only [List.all_cons, Bool.and_eq_true] at hall
+      apply ih _ _ hall.2
+      have hpure : ∀ (t : State) (k : Hash) (w : Nat) (sc : Bool), (handleReq rep t k w sc).pure = t.pure := by
+        intro t k w sc
+        unfold handleReq addFor removeTorrent
+        split
+        · rfl
+        · split
+          · split
+            · cases sc <;> (repeat' split) <;> simp [setCtrl, setCached, setDl]
+            · split <;> simp [setCtrl]
+          · cases sc <;> simp [setCtrl]
+      cases a <;> simp only [step, noEvictNoSplit] at hall ⊢
+      case request k => simp [request, hpure, setDl, h]
+      case apply w => simp only [applyReq]; split <;> simp [hpure, h]
+      case incoming k =>
+        simp only [incoming]
+        split
+        · exact h
+        · split
+          · simp [setDl, h]
+          · split <;> simp [setCtrl, h]
+      case requestMissing => simp [requestMissing, h]
+      case finish k =>
+        simp only [finish]
+        split
+        · split
+          · exact h
+          · split <;> simp [setCtrl, setCached, setDl, h]
+        · exact h
+      case notice k g =>
+        simp only [notice]
+        split
+        · split
+          · exact h
+          · split
+            · split
+              · exact h
+              · split <;> simp [setCtrl, h]
+            · exact h
+        · exact h
+      case timeout k =>
+        simp only [timeout, removeTorrent]
+        split
+        · exact h
+        · split
+          · split <;> split <;> simp [setCtrl, setCached, setDl, h]
+          · exact h
+      case rm k =>
+        simp only [rm, removeTorrent]
+        split
+        · exact h
+        · split
+          · split <;> split <;> simp [setCtrl, setCached, setDl, h]
+          · simp [setCached, setDl, h]
+      case shutdown => simp only [shutdown]; split <;> simp [h]
+      case create k => have h1 := hall.1; simp at h1
+      case evict k => have h1 := hall.1; simp at h1
+  exact key sched init rfl hs
+
+theorem snap_kept (s : State) (a : Action)
+    (ha : (∃ h, a = .timeout h) ∨ (∃ h, a = .rm h) ∨ a = .shutdown ∨ (∃ h g, a = .notice h g)) :
+    (step true s a).snap = s.snap := by
+  rcases ha with ⟨h, rfl⟩ | ⟨h, rfl⟩ | rfl | ⟨h, g, rfl⟩
+  · simp only [step, timeout, removeTorrent]
+    split
+    · rfl
+    · split
+      · split <;> split <;> simp [setCtrl, setCached, setDl]
+      · rfl
+  · simp only [step, rm, removeTorrent]
+    split
+    · rfl
+    · split
+      · split <;> split <;> simp [setCtrl, setCached, setDl]
+      · simp [setCached, setDl]
+  · simp only [step, shutdown]; split <;> rfl
+  · simp only [step, notice]
+    split
+    · split
+      · rfl
+      · split
+        · split
+          · rfl
+          · split <;> simp [setCtrl]
+        · rfl
+    · rfl
 
 /-- **C17 (5)** Progress: a registered request is answered by each of the events that end the wait —
 the torrent's removal as idle, RemoveTorrent, shutdown, and (once the torrent is complete, when by
@@ -154,28 +278,50 @@ theorem waiting_request_is_answered (sched : List Action) (h : Hash) (c : Ctrl) 
   intro s
   have g : Good s := run_good sched
   have hlt : w < s.nextW := (g.w_fresh hs h c w hc hw).1
+  have hsn : s.snap w = none := tracked_no_snap s g h c w hc hw
   refine ⟨?_, ?_, ?_, ?_⟩
-  · apply answered_after s _ g w hlt
+  · apply answered_after s _ g w hlt (by rw [snap_kept s _ (Or.inl ⟨h, rfl⟩)]; exact hsn)
     right
     apply untracked_of s _ g h c w hc hw
     · intro k hk; simp [step, timeout_ctrl s h c hs hc, hk]
     · intro c' hc'; simp [step, timeout_ctrl s h c hs hc] at hc'
-  · apply answered_after s _ g w hlt
+  · apply answered_after s _ g w hlt (by rw [snap_kept s _ (Or.inr (Or.inl ⟨h, rfl⟩))]; exact hsn)
     right
     apply untracked_of s _ g h c w hc hw
     · intro k hk; simp [step, rm_ctrl s h c hs hc, hk]
     · intro c' hc'; simp [step, rm_ctrl s h c hs hc] at hc'
-  · apply answered_after s _ g w hlt
+  · apply answered_after s _ g w hlt (by rw [snap_kept s _ (Or.inr (Or.inr (Or.inl rfl)))]; exact hsn)
     left
     simp only [step, shutdown]; split <;> simp_all
   · intro hm
-    apply answered_after s _ g w hlt
+    apply answered_after s _ g w hlt (by rw [snap_kept s _ (Or.inr (Or.inr (Or.inr ⟨h, c.gen, rfl⟩)))]; exact hsn)
     right
     apply untracked_of s _ g h c w hc hw
     · intro k hk; simp [step, notice_ctrl s h c hs hc hm, hk]
     · intro c' hc'
       simp [step, notice_ctrl s h c hs hc hm] at hc'
       subst hc'; simp
+
+/-- an unapplied request is answered or registered by applying its event -/
+theorem pending_request_is_handled (sched : List Action) (w : Nat)
+    (hsn : ((run true sched).snap w).isSome = true) :
+    ((step true (run true sched) (.apply w)).snap w) = none := by
+  simp only [step, applyReq]
+  cases hx : (run true sched).snap w with
+  | none => simp [hx] at hsn
+  | some x =>
+    obtain ⟨h, sc⟩ := x
+    have : ∀ (t : State) (k : Hash) (w' : Nat) (b : Bool), (handleReq true t k w' b).snap = t.snap := by
+      intro t k w' b
+      unfold handleReq addFor removeTorrent
+      split
+      · rfl
+      · split
+        · split
+          · cases b <;> (repeat' split) <;> simp [setCtrl, setCached, setDl]
+          · split <;> simp [setCtrl]
+        · cases b <;> simp [setCtrl]
+    simp [this]
 
 -- The same statements about the code as it was (`rep = false`): each is refuted by a schedule that
 -- the harness replays against the real code on every run (corpus/C17/fixed-*.ops).
@@ -185,13 +331,34 @@ def exactly_once_target (rep : Bool) : Prop :=
 
 def at_most_once_target (rep : Bool) : Prop := ∀ sched w, ((run rep sched).results w).length ≤ 1
 
+/-- success ⇒ cached over the schedules without cache eviction and without split requests -/
+def success_implies_cached_plain_target (rep : Bool) : Prop :=
+  ∀ sched, sched.all noEvictNoSplit = true →
+    ∀ w x, x ∈ (run rep sched).results w → x.res = .ok → x.cachedThen = true
+
+/-- success ⇒ cached over ALL schedules (with eviction under a live control, and with other events falling
+between a request's `CreateTorrent` and the application of its event) -/
 def success_implies_cached_target (rep : Bool) : Prop :=
   ∀ sched w x, x ∈ (run rep sched).results w → x.res = .ok → x.cachedThen = true
 
 theorem exactly_once_repaired : exactly_once_target true := fun sched q => exactly_once sched q
 theorem at_most_once_repaired : at_most_once_target true := fun sched w => at_most_once sched w
-theorem success_implies_cached_repaired : success_implies_cached_target true :=
-  fun sched w x hx hok => success_implies_cached sched w x hx hok
+theorem success_implies_cached_partial : success_implies_cached_plain_target true :=
+  fun sched hs w x hx hok => success_implies_cached sched (pure_of_plain true sched hs) w x hx hok
+
+/-- known finding `success-after-eviction`: the blob is evicted between the torrent's completion and the
+application of its completion event — the waiters are told "success" -/
+theorem not_success_implies_cached_eviction : ¬ success_implies_cached_target true := by
+  intro h
+  have := h [.request 0, .finish 0, .evict 0, .notice 0 0] 0 ⟨.ok, false⟩ (by decide) rfl
+  revert this; decide
+
+/-- known finding `success-from-stale-torrent-object`: `CreateTorrent` saw the blob cached, RemoveTorrent
+deleted it before the request's event was applied, `addTorrent` then runs over the stale complete object -/
+theorem not_success_implies_cached_split : ¬ success_implies_cached_target true := by
+  intro h
+  have := h [.request 0, .finish 0, .notice 0 0, .create 0, .rm 0, .apply 1] 1 ⟨.ok, false⟩ (by decide) rfl
+  revert this; decide
 
 /-- removal (here: idle-seeder preemption) between completion and its event: the request is never answered -/
 theorem not_exactly_once_original : ¬ exactly_once_target false := by
@@ -206,9 +373,9 @@ theorem not_at_most_once_original : ¬ at_most_once_target false := by
   revert this; decide
 
 /-- the notice of a removed dispatcher answers the waiter of the torrent's new control with "success" -/
-theorem not_success_implies_cached_original : ¬ success_implies_cached_target false := by
+theorem not_success_implies_cached_original : ¬ success_implies_cached_plain_target false := by
   intro h
-  have := h [.request 0, .finish 0, .rm 0, .request 0, .notice 0 0] 1 ⟨.ok, false⟩ (by decide) rfl
+  have := h [.request 0, .finish 0, .rm 0, .request 0, .notice 0 0] (by decide) 1 ⟨.ok, false⟩ (by decide) rfl
   revert this; decide
 
 -- Non-vacuity on the repaired model: the three schedules above now end at rest with one result each.
@@ -223,5 +390,14 @@ example : ¬ Quiescent (run true [.request 0, .finish 0, .rm 0, .request 0, .not
 example : (run true [.request 0, .request 1, .requestMissing, .timeout 0, .shutdown, .request 1]).nextW = 4 := by decide
 example : ((List.range 4).map fun w => ((run true [.request 0, .request 1, .requestMissing, .timeout 0, .shutdown, .request 1]).results w).map (·.res))
     = [[.timeout], [.stopped], [.notFound], [.stopped]] := by decide
+
+-- eviction under a live control: the next request removes the control (answering whoever still waits) and
+-- starts the download again; a split request is the same as an atomic one when nothing falls in between
+example : ((run true [.request 0, .finish 0, .notice 0 0, .evict 0, .request 0]).ctrl 0) = some ⟨1, false, [1]⟩ := by decide
+example : (run true [.request 0, .finish 0, .evict 0, .request 0]).results 0 = [⟨.removed, false⟩] := by decide
+example : (run true [.create 0, .apply 0]).ctrl 0 = (run true [.request 0]).ctrl 0 := by decide
+example : (run true [.create 0, .shutdown, .apply 0]).results 0 = [⟨.stopped, false⟩] := by decide
+example : ¬ Quiescent (run true [.create 0]) := by decide
+example : (run true [.incoming 0, .request 0]).ctrl 0 = some ⟨0, false, [0]⟩ := by decide
 
 end KrakenModel.Spec.C17
